@@ -223,6 +223,14 @@ func runC05(c *core.Ctx) {
 	atCalls(c, "C05-R3", bp+"basePartialSigMsgProcessing", "ssv-spec/ssv.PartialSigContainer.AddSignature", []Req{
 		{"not-duplicate", "F(ssv-spec/ssv.PartialSigContainer.HasSigner(p2, p1.Message.Messages[_].Signer, p1.Message.Messages[_].SigningRoot))", "a second signature of one signer must go through resolveDuplicateSignature"},
 	})
+	// a stored signature is removed only when it does not verify (or cannot be read): a correct
+	// share already delivered must survive a later wrong duplicate from the same signer
+	prevSig := "ssv-spec/ssv.PartialSigContainer.GetSignature(p1, p2.Signer, p2.SigningRoot)"
+	prevBad := "fail(ssv/protocol/v2/ssv/runner.BaseRunner.verifyBeaconPartialSignature(p0, p2.Signer, " + prevSig + "#0, p2.SigningRoot))"
+	kRm := atCalls(c, "C05-R3", bp+"resolveDuplicateSignature", "ssv-spec/ssv.PartialSigContainer.Remove", []Req{
+		{"previous-invalid-or-unreadable", "fail(" + prevSig + ") || " + prevBad + " || when(isnil(" + prevSig + "#1) => " + prevBad + ")", "the stored signature may be dropped only if it is unreadable or fails verification"},
+	})
+	c.Min("C05-R3", kRm, 1, "Remove in resolveDuplicateSignature")
 	atCalls(c, "C05-R3", bp+"resolveDuplicateSignature", "ssv-spec/ssv.PartialSigContainer.AddSignature", []Req{
 		{"new-sig-verified", "ok(ssv/protocol/v2/ssv/runner.BaseRunner.verifyBeaconPartialSignature(p0, p2.Signer, p2.PartialSignature, p2.SigningRoot))", "a replacing signature must be individually verified"},
 	})
